@@ -249,6 +249,7 @@ type evaluator struct {
 	a       *arena
 	sym     symCache
 	tripped atomic.Bool
+	seq     atomic.Uint64 // odd while the library is executing (what the hang monitor times)
 }
 
 func newEvaluator() *evaluator { return &evaluator{a: newArena(), sym: symCache{}} }
@@ -260,6 +261,7 @@ func (e *evaluator) decodeGuarded(kind int, data []byte) (res result) {
 	res.ran = true
 	defer func() {
 		if p := recover(); p != nil {
+			e.seq.Add(1)
 			res.frames = e.sym.libFrames(1)
 			if ae, ok := p.(addrError); ok && e.tripped.Load() && e.a.contains(ae.Addr()) {
 				e.a.protect(false)
@@ -271,7 +273,9 @@ func (e *evaluator) decodeGuarded(kind int, data []byte) (res result) {
 			res.pval = fmt.Sprint(p)
 		}
 	}()
+	e.seq.Add(1)
 	n, err, val := decodeCall(kind, data)
+	e.seq.Add(1)
 	res.n, res.ok, res.val = n, err == nil, val
 	if err != nil {
 		res.errText = err.Error()
